@@ -134,6 +134,9 @@ func genFunction(ld *Loader, specs *Specs, fn *ssa.Function, ct *Contract, opts 
 					packed.C = append(packed.C, rv.C...)
 				}
 				tr.rc = r.cond
+				if r.instr != nil {
+					tr.curInstr, tr.cur = r.instr, r.block // locals named in the clause are read at this return
+				}
 				tr.bindResults(env, ct, fn.Signature, packed)
 				t, extra := tr.goalClause(env, en.AST)
 				extras = append(extras, extra...)
